@@ -693,6 +693,8 @@ class _CB(flow.DefaultCB):
                     it.events.append(('undamped-division', self.f, node, b))
                 return TV(a.axes, umul(a.unit, b.unit, sign), _jdt(a.dtype, b.dtype), frozenset(quals), frozenset(), None, _cmul(a.coef, b.coef, sign), '')
             if isinstance(a, TV) and isinstance(b, SV):
+                if sign == 1 and b.kind == 'damping' and 'identity' in a.quals and a.const in ('1', '1.0'):
+                    return replace(a, const='damping')       # I * damping
                 coef = a.coef
                 if b.kind == 'size':
                     coef = _cmul(a.coef, ((axes_str((b.size,)), 1),), sign)
@@ -700,6 +702,8 @@ class _CB(flow.DefaultCB):
                     coef = _cmul(a.coef, ((b.text, 1),), sign)
                 return TV(a.axes, umul(a.unit, b.unit, sign), a.dtype, a.quals & {'sym', 'gram', 'nonneg', 'bias-ones'}, frozenset(), None, coef, a.src)
             if isinstance(a, SV) and isinstance(b, TV):
+                if sign == 1 and a.kind == 'damping' and 'identity' in b.quals and b.const in ('1', '1.0'):
+                    return replace(b, const='damping')       # damping * I
                 if sign == 1:
                     coef = b.coef
                     if a.kind == 'size':
